@@ -1142,11 +1142,47 @@ fn space_case(st: &mut Stats, rng: &mut Rng) {
     st.sample(|| desc());
 }
 
+// ---------------------------------------------------------------- reductions on non-finite data
+/// dot / sum / product are DEFINED by their left-to-right IEEE loops: with infinities, NaNs and signed zeros among the
+/// entries the result must be what that loop gives (0 * inf is NaN; nothing may be skipped), and dot must commute.
+fn nonfinite_reductions(st: &mut Stats, rng: &mut Rng) {
+    st.next_case();
+    let n = rng.usize(1, 8);
+    let pick = |rng: &mut Rng| *rng.pick(&[0.0, -0.0, 1.0, -2.0, 0.5, f64::INFINITY, f64::NEG_INFINITY, f64::NAN, 1e308, -1e308, 5e-324]);
+    let (a, b): (Vec<f64>, Vec<f64>) = ((0..n).map(|_| pick(rng)).collect(), (0..n).map(|_| pick(rng)).collect());
+    let same = |x: f64, y: f64| (x.is_nan() && y.is_nan()) || x.to_bits() == y.to_bits() || (x == 0.0 && y == 0.0);
+    let (va, vb) = (Vector::create(a.clone()), Vector::create(b.clone()));
+    let mut d = 0.0f64; for i in 0..n { d += a[i] * b[i]; }
+    let mut d2 = 0.0f64; for i in 0..n { d2 += b[i] * a[i]; }
+    let mut sm = 0.0f64; for i in 0..n { sm += a[i]; }
+    let mut pr = 1.0f64; for i in 0..n { pr *= a[i]; }
+    st.eval();
+    match (catch(|| va.dot(&vb)), catch(|| vb.dot(&va))) {
+        (Outcome::Ok(g), Outcome::Ok(h)) => { if !same(g, d) || !same(h, d2) { st.violation("C15:dot:f64:non-finite-data", format!("a.dot(b) = {:?}, b.dot(a) = {:?}; the defining loops give {:?} and {:?}; a={:?} b={:?}", g, h, d, d2, a, b)); } }
+        (o, _) if !o.is_ok() => st.violation("C15:dot:f64:panic", format!("{}; a={:?} b={:?}", o.describe(), a, b)),
+        (_, o) => st.violation("C15:dot:f64:panic", format!("{}; a={:?} b={:?}", o.describe(), a, b)),
+    }
+    st.eval();
+    if let (Outcome::Ok(g), Outcome::Ok(h)) = (catch(|| va.sum()), catch(|| va.product())) {
+        if !same(g, sm) || !same(h, pr) { st.violation("C15:sum-product:f64:non-finite-data", format!("sum = {:?} (loop {:?}), product = {:?} (loop {:?}); a={:?}", g, sm, h, pr, a)); }
+    }
+    // complex: a zero entry against an infinite one
+    let za: Vec<Cmplx> = a.iter().zip(&b).map(|(x, y)| Cmplx::new(*x, if y.is_finite() { *y } else { 0.0 })).collect();
+    let zb: Vec<Cmplx> = b.iter().zip(&a).map(|(x, y)| Cmplx::new(*x, if y.is_finite() { 0.0 } else { 1.0 })).collect();
+    let mut zd = Cmplx::new(0.0, 0.0); for i in 0..n { zd += za[i] * zb[i]; }
+    st.eval();
+    if let Outcome::Ok(g) = catch(|| Vector::create(za.clone()).dot(&Vector::create(zb.clone()))) {
+        if !same(g.real, zd.real) || !same(g.imag, zd.imag) { st.violation("C15:dot:Cmplx:non-finite-data", format!("dot = {:?}, the defining loop gives {:?}; a={:?} b={:?}", g, zd, za, zb)); }
+    }
+    st.count("non-finite-reduction-cases");
+}
+
 // ---------------------------------------------------------------- driver
 fn pick_len(rng: &mut Rng) -> usize { match rng.below(10) { 0 => 0, 1 => 1, 2 => 2, 3 => MAXLEN, _ => rng.usize(0, MAXLEN) } }
 fn pick_fl(rng: &mut Rng) -> u32 { *rng.pick(&[0u32, 0, 1, 2, 2]) }
 
 fn random_unit(st: &mut Stats, rng: &mut Rng, u: u64) {
+    for _ in 0..4 { nonfinite_reductions(st, rng); }
     // histories, one per element type
     let steps = |rng: &mut Rng| if rng.chance(0.15) { rng.usize(60, 160) } else { rng.usize(1, 48) };
     let s = steps(rng); history::<Rat>(st, rng, s);
